@@ -91,3 +91,39 @@ package vgirpc
 //@   at call packOAuthCookie assert [validated] arg0 == codeVerifier && arg1 == stateNonce && arg2 == originalURL && arg3 == returnTo
 //@   at call packOAuthCookie assert [fits] len(pkce.prefix) <= 2048 ==> len(arg2) <= 2048 && len(arg3) <= 2048
 //@   at call validateOriginalURL assert [prefix] arg1 == pkce.prefix
+
+// handleOAuthCallback: the code is exchanged only after the session cookie was opened with this
+// server's key and max age and the state from the query compared equal (byte for byte, both
+// converted whole) to the state the cookie carries; the verifier sent is the cookie's. The
+// Location of the final redirect is either the cookie's return URL (validated when the cookie
+// was packed, see pkceRedirectToOAuth) followed by the fragment that carries the token, or —
+// with no return URL — exactly what validateOriginalURL made of the cookie's original URL under
+// the server prefix; the token goes nowhere else in a Location.
+//
+//@ func (*HttpServer).handleOAuthCallback
+//@   property C27
+//@   pathflag cookieOK
+//@   pathflag stateOK
+//@   pathvar cookieState string
+//@   pathvar cookieVerifier string
+//@   pathvar cookieOriginal string
+//@   pathvar cookieReturnTo string
+//@   pathvar validated string
+//@   pathvar joined string
+//@   at call unpackOAuthCookie assert [ownkey] arg0 == sessionCookie.Value && arg1 == pkce.sessionKey && arg2 == 600
+//@   at call unpackOAuthCookie setflag cookieOK result4 == nil
+//@   at call unpackOAuthCookie setflag cookieVerifier result0
+//@   at call unpackOAuthCookie setflag cookieState result1
+//@   at call unpackOAuthCookie setflag cookieOriginal result2
+//@   at call unpackOAuthCookie setflag cookieReturnTo result3
+//@   at call subtle.ConstantTimeCompare assert [wholestate] cookieOK && len(arg0) == len(state) && len(arg1) == len(cookieState) &&
+//@       (forall i int :: 0 <= i && i < len(state) ==> arg0[i] == state[i]) && (forall i int :: 0 <= i && i < len(cookieState) ==> arg1[i] == cookieState[i])
+//@   at call subtle.ConstantTimeCompare setflag stateOK result == 1
+//@   at call exchangeCodeForToken assert [afterstate] cookieOK && stateOK && arg1 == code && arg3 == cookieVerifier && arg2 == pkce.redirectURI
+//@   at call validateOriginalURL assert [sameorigin] arg0 == cookieOriginal && arg1 == pkce.prefix && cookieReturnTo == ""
+//@   at call validateOriginalURL setflag validated result
+//@   at call strings.Join setflag joined result
+//@   pathvar sep string
+//@   at call strings.Contains setflag sep (result ? "&" : "#")
+//@   at call (http.Header).Set assert [location] arg1 == "Location" ==> cookieOK && stateOK &&
+//@       ((cookieReturnTo == "" && arg2 == validated) || (cookieReturnTo != "" && arg2 == cookieReturnTo + sep + joined))
